@@ -16,11 +16,13 @@ import (
 	"io"
 	"net"
 	"os"
+	"os/signal"
 	"path/filepath"
 	"reflect"
 	"sort"
 	"strconv"
 	"strings"
+	"sync"
 	"syscall"
 	"time"
 	"unicode/utf8"
@@ -406,6 +408,16 @@ func c12Exec(op []string) string {
 		return out
 	case "c12.resume":
 		return c12Resume(op[1], c12ParseSess(op[2]))
+	case "c12.cut":
+		if len(op) != 5 || (op[2] != "0" && op[2] != "1") {
+			return "bad-op"
+		}
+		switch op[1] {
+		case "abs", "rel", "dotrel", "bare":
+		default:
+			return "bad-op"
+		}
+		return c12Cut(op[1], op[2] == "1", c12ParseSess(op[3]), c12ParseSess(op[4]))
 	case "c12.cfg":
 		if len(op) != 6 {
 			return "bad-op"
@@ -423,6 +435,148 @@ func c12Exec(op []string) string {
 		return c12Wire(op[1], op[2], parseBytes(op[3]), parseBytes(op[4]), salt, ping)
 	}
 	return "bad-op"
+}
+
+// ---- a Store that is cut by the operating system, with an older session at the path ---------------------------
+
+var c12XfszOnce sync.Once
+
+// c12WithFileLimit runs f while no file of the process can grow past k bytes (RLIMIT_FSIZE): a write that would is
+// cut there by the kernel — the bytes up to k are written, the next write fails with EFBIG — as a full disk, a quota
+// or the death of the process at that byte leaves it. SIGXFSZ (deadly by default) is ignored for the rest of the run.
+// Nothing else of the process writes to a file meanwhile: the run loop waits for this operation.
+func c12WithFileLimit(k uint64, f func()) {
+	c12XfszOnce.Do(func() { signal.Ignore(syscall.SIGXFSZ) })
+	var was syscall.Rlimit
+	if err := syscall.Getrlimit(syscall.RLIMIT_FSIZE, &was); err != nil {
+		panic(err)
+	}
+	if k > was.Cur {
+		k = was.Cur
+	}
+	if err := syscall.Setrlimit(syscall.RLIMIT_FSIZE, &syscall.Rlimit{Cur: k, Max: was.Max}); err != nil {
+		panic(err)
+	}
+	defer func() {
+		if err := syscall.Setrlimit(syscall.RLIMIT_FSIZE, &was); err != nil {
+			panic(err)
+		}
+	}()
+	f()
+}
+
+// c12Cut: `c12.cut <shape> <loaded> <older session> <newer session>`. For EVERY k in 0..n (n = length of the file of
+// the newer session): the older session is stored at the path by a loader (which then loads it when <loaded> is 1);
+// the same loader stores the newer session while the operating system cuts every write at byte k — the library's own
+// write path decides what is left on the disk; then the same loader and a fresh one load. Each Load is classified
+// against the two sessions that were stored: error / older / newer / third (a session nobody stored).
+//
+//	n=<n> cuts=<n+1> storefail=<cuts at which Store reported an error> same=error:<a>,older:<b>,newer:<c>,third:<d> fresh=… first=<k>:<who>:<what it loaded>|-
+func c12Cut(shape string, loaded bool, older, newer c12Sess) string {
+	path, done := c12Place(shape)
+	defer done()
+	// the length of the newer session's file, as the real Store writes it
+	if err := session.NewFromFile(path).Store(newer.real()); err != nil {
+		return "store-failed"
+	}
+	whole, err := os.ReadFile(path)
+	if err != nil {
+		panic(err)
+	}
+	n := len(whole)
+	classes := []string{"error", "older", "newer", "third"}
+	counts := map[string]map[string]int{"same": {}, "fresh": {}}
+	classify := func(s *session.Session, err error) (cls string) {
+		switch got := c12ShowLoad(s, err); {
+		case err != nil || s == nil:
+			return "error"
+		case got == "ok:"+newer.show():
+			return "newer"
+		case got == "ok:"+older.show():
+			return "older"
+		}
+		return "third"
+	}
+	load := func(l session.SessionLoader) (cls, shown string) {
+		defer func() {
+			if r := recover(); r != nil {
+				cls, shown = "panic", "panic"
+			}
+		}()
+		s, err := l.Load()
+		return classify(s, err), c12ShowLoad(s, err)
+	}
+	storeFail := 0
+	first := "-"
+	for k := 0; k <= n; k++ {
+		_ = os.Remove(path)
+		l := session.NewFromFile(path)
+		if err := l.Store(older.real()); err != nil {
+			return "store-failed"
+		}
+		if loaded {
+			if cls, _ := load(l); cls != "older" && cls != "newer" {
+				return "older-session-not-read-back"
+			}
+		}
+		var serr error
+		c12WithFileLimit(uint64(k), func() { serr = l.Store(newer.real()) })
+		if serr != nil {
+			storeFail++
+		}
+		for _, who := range []string{"same", "fresh"} {
+			ld := l
+			if who == "fresh" {
+				ld = session.NewFromFile(path)
+			}
+			cls, shown := load(ld)
+			counts[who][cls]++
+			if (cls == "third" || cls == "panic") && first == "-" {
+				left, _ := os.ReadFile(path)
+				file := hexD(left)
+				if len(left) > 200 { // the end of the file is where salt and host name are
+					file = hexD(left[:24]) + "…" + hexD(left[len(left)-150:])
+				}
+				first = fmt.Sprintf("%d:%s:%s:file:%s", k, who, shown, file)
+			}
+		}
+	}
+	line := func(who string) string {
+		var p []string
+		for _, c := range classes {
+			p = append(p, fmt.Sprintf("%s:%d", c, counts[who][c]))
+		}
+		if counts[who]["panic"] > 0 {
+			p = append(p, fmt.Sprintf("panic:%d", counts[who]["panic"]))
+		}
+		return strings.Join(p, ",")
+	}
+	return fmt.Sprintf("n=%d cuts=%d storefail=%d same=%s fresh=%s first=%s", n, n+1, storeFail, line("same"), line("fresh"), first)
+}
+
+// c12JudgeCut: the property's sentence about files "cut short at any byte — as a crash during writing leaves it":
+// whatever the cut write left, every Load reports an error or returns one of the two sessions that were stored.
+func c12JudgeCut(op []string, out string) string {
+	f := kv(out)
+	if f["n"] == "" {
+		return "" // the operation could not be set up (compared with the model only)
+	}
+	for _, who := range []string{"same", "fresh"} {
+		for _, c := range strings.Split(f[who], ",") {
+			p := strings.Split(c, ":")
+			if len(p) == 2 && (p[0] == "third" || p[0] == "panic") && p[1] != "0" {
+				older, newer := c12ParseSess(op[3]), c12ParseSess(op[4])
+				loader := map[string]string{"same": "the loader that stored", "fresh": "a fresh loader"}[who]
+				what := "returned without error a session nobody stored"
+				if p[0] == "panic" {
+					what = "panicked"
+				}
+				return fmt.Sprintf("Store of a session over an older one, the write cut by the operating system at each of %s byte positions: at %s of them %s %s (stored were %s and %s); first: cut at byte <k>:<loader>:<what it loaded>:file:<what the cut write left> = %s",
+					f["cuts"], p[1], loader, what, older.show(), newer.show(), f["first"])
+			}
+		}
+	}
+	return ""
 }
 
 func c12TornClass(path string) (cls string) {
@@ -1100,6 +1254,8 @@ func c12Judge(op []string, out string) string {
 				return "client started on a torn session file does not report an error: " + out
 			}
 		}
+	case "c12.cut":
+		return c12JudgeCut(op, out)
 	case "c12.cfg":
 		return c12JudgeCfg(op, kv(out))
 	case "c12.wire":
@@ -1869,6 +2025,8 @@ func c12Gen(g *G) {
 	}
 	// the started client as the server sees it: the first frame it writes, opened with the stored key alone
 	c12GenWire(g)
+	// a Store cut by the operating system at every byte, with an older session at the path
+	c12GenCut(g)
 }
 
 // c12GenWire: started clients observed on the wire. Keys of 256 bytes (what a key exchange leaves; random, all zero, all
@@ -1939,6 +2097,117 @@ func c12GenWire(g *G) {
 	}
 	for _, kind := range []string{"file", "given", "mem"} {
 		g.Emit(fmt.Sprintf("c12.wire %s 0 %s %s %d %d", kind, hexD(r.Bytes(256)), hexD(r.Bytes(8)), c12GenSalt(g), r.U64()>>1), "wire", "wire-empty-store")
+	}
+}
+
+// c12GenCut: a Store that does not get through, with an EARLIER session at the path. Pairs (older, newer): the
+// ordinary update (only the salt differs: one bit, one byte, every byte), a new key / hash / host name of the same
+// length (a migration to another data centre), shorter and longer keys and host names in both directions, two
+// unrelated sessions; small sessions and real ones (256-byte key, 8-byte hash, an address). Host names are well-formed
+// UTF-8 (the clause about cut files speaks of the sessions that were stored; an ill-formed name is not read back as
+// stored even from a complete file).
+func c12GenCut(g *G) {
+	r := g.R
+	host := func() []byte {
+		for {
+			h := c12GenHost(g)
+			if utf8.Valid(h) && len(h) < 64 {
+				return h
+			}
+		}
+	}
+	cp := func(b []byte) []byte { return append([]byte{}, b...) }
+	other := func(b []byte) []byte { // same length, other content
+		if len(b) == 0 {
+			return b
+		}
+		o := cp(b)
+		switch r.Intn(3) {
+		case 0: // one byte
+			o[r.Intn(len(o))] ^= byte(1 + r.Intn(255))
+		case 1: // from some point on
+			for i := r.Intn(len(o)); i < len(o); i++ {
+				o[i] ^= byte(1 + r.Intn(255))
+			}
+		default:
+			o = r.Bytes(len(o))
+			if string(o) == string(b) {
+				o[0] ^= 1
+			}
+		}
+		return o
+	}
+	otherText := func(h []byte) []byte { // same length, still text: digits and letters replaced
+		o := cp(h)
+		changed := false
+		for i, c := range o {
+			if (c >= '0' && c <= '9' || c >= 'a' && c <= 'z') && (r.Intn(3) == 0 || !changed) {
+				o[i] = "0123456789abcdefghijklmnopqrstuvwxyz"[(int(c)+1+r.Intn(9))%36]
+				changed = changed || o[i] != c
+			}
+		}
+		return o
+	}
+	type variation struct {
+		name string
+		f    func(o c12Sess) c12Sess
+	}
+	vars := []variation{
+		{"salt", func(o c12Sess) c12Sess { o.salt = c12GenSalt(g); return o }},
+		{"salt-bit", func(o c12Sess) c12Sess { o.salt ^= 1 << uint(r.Intn(64)); return o }},
+		{"salt-byte", func(o c12Sess) c12Sess { o.salt ^= int64(1+r.Intn(255)) << uint(8*r.Intn(8)); return o }},
+		{"salt-all", func(o c12Sess) c12Sess { o.salt = ^o.salt; return o }},
+		{"key", func(o c12Sess) c12Sess { o.key = other(o.key); return o }},
+		{"hash", func(o c12Sess) c12Sess { o.hash = other(o.hash); return o }},
+		{"host", func(o c12Sess) c12Sess { o.host = otherText(o.host); return o }},
+		{"key+hash+salt", func(o c12Sess) c12Sess { o.key, o.hash, o.salt = other(o.key), other(o.hash), c12GenSalt(g); return o }},
+		{"host+salt", func(o c12Sess) c12Sess { o.host, o.salt = otherText(o.host), c12GenSalt(g); return o }},
+		{"key-shorter", func(o c12Sess) c12Sess { o.key = cp(o.key[:len(o.key)-len(o.key)/3]); return o }},
+		{"key-longer", func(o c12Sess) c12Sess { o.key = append(cp(o.key), r.Bytes(1+r.Intn(6))...); return o }},
+		{"host-shorter", func(o c12Sess) c12Sess {
+			o.host = cp(o.host[:len(o.host)/2])
+			for !utf8.Valid(o.host) {
+				o.host = o.host[:len(o.host)-1]
+			}
+			o.salt = c12GenSalt(g)
+			return o
+		}},
+		{"host-longer", func(o c12Sess) c12Sess { o.host = append(cp(o.host), host()...); o.salt = c12GenSalt(g); return o }},
+		{"unrelated", func(o c12Sess) c12Sess {
+			return c12Sess{key: r.Bytes(r.Intn(40)), hash: r.Bytes(r.Intn(9)), salt: c12GenSalt(g), host: host()}
+		}},
+	}
+	emit := func(older c12Sess, v variation, tags ...string) {
+		newer := v.f(older)
+		if newer.show() == older.show() {
+			newer.salt ^= 1
+		}
+		sh := "abs"
+		if r.Intn(4) == 0 {
+			sh = c12Shapes[r.Intn(4)]
+		}
+		g.Emit(fmt.Sprintf("c12.cut %s %d %s %s", sh, r.Intn(2), older.token(), newer.token()), append([]string{"cut-store", "cut-store:" + v.name}, tags...)...)
+	}
+	small := func() c12Sess {
+		return c12Sess{key: r.Bytes(1 + r.Intn(24)), hash: r.Bytes(r.Pick(0, 1, 8, 8)), salt: c12GenSalt(g), host: host()}
+	}
+	realS := func() c12Sess {
+		return c12Sess{key: r.Bytes(256), hash: r.Bytes(8), salt: c12GenSalt(g),
+			host: []byte(fmt.Sprintf("149.154.%d.%d:443", 100+r.Intn(100), 10+r.Intn(80)))}
+	}
+	// every variation on a small session (a file of ~100 bytes, every cut point); the thorough tier repeats them
+	for round, n := 0, g.N(1, 40); round < n; round++ {
+		for _, v := range vars {
+			emit(small(), v, "cut-store-small")
+		}
+	}
+	// real sessions: the ordinary update and a migration always, the other variations in turn
+	for i, n := 0, g.N(6, 200); i < n; i++ {
+		v := vars[i%len(vars)]
+		if i < 2 {
+			v = vars[[]int{0, 8}[i]]
+		}
+		emit(realS(), v, "cut-store-real")
 	}
 }
 
